@@ -1,4 +1,5 @@
 import Blots.Lemmas.FormatLemmas
+import Blots.Lemmas.FormatPieces
 import Blots.Lemmas.PrintLemmas
 /-
   C09 — formatting never loses or reorders comments: the parts that are logic of the model.
@@ -24,18 +25,50 @@ import Blots.Lemmas.PrintLemmas
      statements and of the `return`, each once, in source order, leading comments on their
      own line before the statement, the trailing comment after it on the same line.
 
-  NOT proved: that the multi-line layouts (`fmtItems`, `fmtEntries`, `fmtStmts`, … — `partial`
-  functions of the model, no equations available) emit each comment once, and that the
-  parser attaches every comment of the source text to some node (it does not for
-  comment-only lists / records: known findings `c09.comment-only-list`, `-record`).  Both are
-  covered by the model-free oracle of `harness/src/props/c09.rs` (comment sequence of the
-  output = comment sequence of the input) and the correspondence harness.
+  PROVED for the width-driven layouts (`fmtImplP` and the per-kind layouts of
+  `Model/Format.lean`, total functions that return the output as a list of PIECES; `render` of
+  the pieces is the text of `formatter.rs`, tied to it character for character by the
+  correspondence harness), for EVERY tree, width and indent, through every layout branch:
+   * `format_keeps_every_comment`  : the comment pieces of the output are copies of
+     `printedComments e` — every leading and trailing comment of every `Commented` wrapper of
+     the tree except the trailing comment of a do-block's `return` item — one for one, in
+     source order; and what each piece shows is its comment up to `CommentKept` (carriage
+     returns deleted, line feeds deleted at the end);
+   * `format_preserves_comments`   : if the comments are clean (no carriage return, not
+     ending in a line feed) the comment pieces ARE `printedComments e`, character for character;
+   * `format_preserves_all_comments`: … and are `commentsOf e` (all comments) for trees
+     without trailing comment on a `return` item — every tree the parser builds;
+   * `every_layout_preserves_comments`: the same for each function of `formatter.rs`
+     (`format_lambda`, `format_multiline`, `format_conditional_multiline`,
+     `format_binary_op_multiline`, the list / record / call / do-block loops);
+   * `format_expr_preserves_comments`, `render_pieces_is_format` : for `format_expr` itself.
+  The model is total by structural recursion, there is no fuel (`layouts_are_total_functions`).
+
+  WHERE THE FORMATTER (as modelled, confirmed on the real code) DOES NOT KEEP A COMMENT:
+   * `carriage_return_is_stripped_from_comment` : `format_binary_op_multiline` sends the
+     formatted right operand of `via` / `into` / `where` through `lines()` and `join("\n")`;
+     that deletes a `'\r'` in front of a `'\n'` — inside a comment (and inside a string
+     literal: a C07 matter).  Witness on the real code: `y = l via x => [⏎  v, // c␍␍⏎]`
+     prints the comment `// c␍` as `// c`; `y = l via x => "a␍⏎b"` prints the string `a⏎b`.
+   * `return_trailing_comment_is_dropped` : a trailing comment on the `return` item of a
+     do-block is never printed.  Only trees built by hand have one: the parser sets `None`
+     there and the grammar rejects `return x // c` before the closing brace.
+   * `format_multiline_on_lambda_loses_comments` : `format_multiline` applied to a lambda falls
+     to `expr_to_source`, which drops list / record comments — `format_expr_impl` never does
+     that (lambdas go to `format_lambda`), hence the hypothesis of the `format_multiline` part.
+
+  NOT proved: that the parser attaches every comment of the source text to some node (it does
+  not for comment-only lists / records: known findings `c09.comment-only-list`, `-record`),
+  and the statement-level handling of the drivers (main.rs / wasm format loops: standalone and
+  end-of-line comments of statements) — there is no model of the driver loop.  Both are covered
+  by the model-free oracle of `harness/src/props/c09.rs` (comment sequence of the output =
+  comment sequence of the input).
 
   A shorthand record entry `{k}` prints only its key; its (synthetic) value is not part of
   the "printed tree" in `hasDo` / `anyComment`, exactly as in `contains_comments`.
 -/
 namespace Blots.C09
-open Blots.FormatL Blots.PrintL
+open Blots.FormatL Blots.PrintL Blots.FormatP
 
 /-- THE FORCING MECHANISM.  An expression that `contains_comments` has no newline-free
     single-line form, so `format_expr_impl` (`if !single.contains('\n') && fits`) never
@@ -111,6 +144,225 @@ theorem do_statement_chunks (sc : Scope) (lead : List String) (e : Expr) (tr : O
     (∀ t, trailChunks (some t) = [.code "  ", .comment t]) ∧ trailChunks none = [] :=
   ⟨rfl, fun _ _ => rfl, fun _ => rfl, rfl⟩
 
+/-! ### the width-driven layouts: every comment, every layout, every width and indent -/
+
+/-- MAIN THEOREM, general form.  For every tree, width and indent the comment pieces of
+    `format_expr_impl`'s output were copied from exactly the comments `printedComments e`, one
+    for one and in source order, and each comment piece shows its comment — up to
+    `CommentKept`: some carriage returns deleted, line feeds deleted at its end. -/
+theorem format_keeps_every_comment (w indent : Nat) (e : Expr) :
+    commentOrigs (fmtImplP w indent e) = printedComments e ∧
+    (∀ o s, Piece.comment o s ∈ fmtImplP w indent e → CommentKept s o) ∧
+    (commentPieces (fmtImplP w indent e)).length = (printedComments e).length ∧
+    ∀ i (h1 : i < (commentPieces (fmtImplP w indent e)).length) (h2 : i < (printedComments e).length),
+      CommentKept ((commentPieces (fmtImplP w indent e))[i]) ((printedComments e)[i]) := by
+  have h := good_impl e w indent
+  exact ⟨h.1, fun o s hm => h.2 _ hm, h.shown_kept.1, h.shown_kept.2⟩
+
+/-- MAIN THEOREM, exact form.  If no comment of the tree contains a carriage return or ends in
+    a line feed, the comments in the output are the comments of the tree, character for
+    character, nothing dropped, duplicated, reordered or altered — at every width and indent. -/
+theorem format_preserves_comments (w indent : Nat) (e : Expr)
+    (hc : ∀ c ∈ printedComments e, cleanComment c) :
+    commentPieces (fmtImplP w indent e) = printedComments e :=
+  (good_impl e w indent).shown_eq hc
+
+/-- … and these are ALL comments of the tree when no `return` item carries a trailing comment
+    (the parser never produces one) -/
+theorem format_preserves_all_comments (w indent : Nat) (e : Expr) (hr : retClean e = true)
+    (hc : ∀ c ∈ commentsOf e, cleanComment c) :
+    commentPieces (fmtImplP w indent e) = commentsOf e := by
+  have he : commentsOf e = printedComments e := commentsG_retClean e hr
+  rw [he] at hc ⊢
+  exact format_preserves_comments w indent e hc
+
+/-- what `printedComments` leaves out of `commentsOf` is only the trailing comment of
+    `return` items -/
+theorem printed_comments_are_all_comments (e : Expr) (hr : retClean e = true) :
+    printedComments e = commentsOf e := (commentsG_retClean e hr).symm
+
+/-- the same for every function of `formatter.rs`: `format_lambda`,
+    `format_conditional_multiline`, `format_binary_op_multiline`, `format_multiline` (on
+    everything `format_expr_impl` passes to it), the loops of `format_list_multiline`,
+    `format_record_multiline`, `format_call_multiline`, `format_do_block_multiline`, and
+    `format_record_entry` -/
+theorem every_layout_preserves_comments (w indent : Nat) :
+    (∀ args body, Good (fmtLambdaP w indent args body) (printedComments (.lambda args body))) ∧
+    (∀ c t e, Good (fmtCondP w indent c t e) (printedComments (.cond c t e))) ∧
+    (∀ op l r, Good (fmtBinP w indent op l r) (printedComments (.bin op l r))) ∧
+    (∀ e, (∀ args body, e ≠ .lambda args body) → Good (fmtMultiP w indent e) (printedComments e)) ∧
+    (∀ items, Good (fmtItemsP w indent items) (itemsCommentsG false items)) ∧
+    (∀ es, Good (fmtEntriesP w indent es) (entriesCommentsG false es)) ∧
+    (∀ k vs vc, Good vs vc → Good (fmtKeyedP w indent k vs) (keyCommentsG false k vc)) ∧
+    (∀ as, Good (fmtArgsP w indent as) (exprsCommentsG false as)) ∧
+    (∀ ss, Good (fmtStmtsP w indent ss) (itemsCommentsG false ss)) ∧
+    (∀ r, Good (fmtRetP w indent r) (retCommentsG false r)) :=
+  ⟨good_lambda w indent, good_cond w indent, good_bin w indent, good_multi w indent,
+   fun is => good_items is w indent, fun es => good_entries es w indent,
+   fun k vs vc h => good_keyed k w indent vs vc h, fun as => good_args as w indent,
+   fun ss => good_stmts ss w indent, fun r => good_ret r w indent⟩
+
+/-- `Good` unfolded, so that the previous statement can be read on its own -/
+theorem good_means (ps : List Piece) (cs : List String) :
+    Good ps cs ↔ (commentOrigs ps = cs ∧ ∀ p ∈ ps, p.Kept) := Iff.rfl
+
+/-- … and for clean comments `Good` is equality of the comment sequences -/
+theorem good_gives_equal_comments (ps : List Piece) (cs : List String) (h : Good ps cs)
+    (hc : ∀ c ∈ cs, cleanComment c) : commentPieces ps = cs := h.shown_eq hc
+
+/-- source order of `commentsOf`: the leading comments of an item, the comments inside its
+    expression, its trailing comment; the statements of a do-block, then its `return` item;
+    condition, then-branch, else-branch; function before arguments; key before value -/
+theorem comments_in_source_order (rt : Bool) :
+    (∀ l e t, itemCommentsG rt (.mk l e t) = l ++ (commentsG rt e ++ t.toList)) ∧
+    (∀ ss r, commentsG rt (.doBlock ss r) = itemsCommentsG rt ss ++ retCommentsG rt r) ∧
+    (∀ i is, itemsCommentsG rt (i :: is) = itemCommentsG rt i ++ itemsCommentsG rt is) ∧
+    (∀ c t e, commentsG rt (.cond c t e) = commentsG rt c ++ (commentsG rt t ++ commentsG rt e)) ∧
+    (∀ f as, commentsG rt (.call f as) = commentsG rt f ++ exprsCommentsG rt as) ∧
+    (∀ op l r, commentsG rt (.bin op l r) = commentsG rt l ++ commentsG rt r) ∧
+    (∀ l k v t, entryCommentsG rt (.mk l (.dyn k) v t) =
+      l ++ ((commentsG rt k ++ commentsG rt v) ++ t.toList)) := by
+  refine ⟨fun _ _ _ => ?_, fun _ _ => ?_, fun _ _ => ?_, fun _ _ _ => ?_, fun _ _ => ?_,
+    fun _ _ _ => ?_, fun _ _ _ _ => ?_⟩ <;> simp only [commentsG, itemCommentsG, itemsCommentsG,
+      entryCommentsG, keyCommentsG]
+
+/-- The single-line output has no comment piece, and is taken only when there is no comment:
+    consistent with `single_line_path_is_comment_free`. -/
+theorem single_line_output_has_no_comment_piece (w indent : Nat) (e : Expr)
+    (hl : ∀ args body, e ≠ .lambda args body) (hd : ∀ ss r, e ≠ .doBlock ss r)
+    (h1 : hasNewline (fmtSingle e) = false) (h2 : indent + blen (firstLine (fmtSingle e)) ≤ w) :
+    fmtImplP w indent e = [.text (fmtSingle e)] ∧
+    commentPieces (fmtImplP w indent e) = [] ∧ commentsOf e = [] ∧ anyComment e = false := by
+  have hs : fmtImplP w indent e = [.text (fmtSingle e)] := by
+    rw [fmtImplP_eq]
+    cases e with
+    | lambda a b => exact absurd rfl (hl a b)
+    | doBlock s r => exact absurd rfl (hd s r)
+    | _ => simp [orSingle, h1, h2]
+  refine ⟨hs, ?_, commentsG_nil_of_single e true h1, single_line_path_is_comment_free e h1⟩
+  rw [hs]; rfl
+
+/-- conversely, whenever the tree has a comment the output is not the single-line text -/
+theorem commented_tree_is_laid_out (w indent : Nat) (e : Expr) (h : anyComment e = true) :
+    fmtImplP w indent e = (match e with
+      | .lambda args body => fmtLambdaP w indent args body
+      | e => fmtMultiP w indent e) := by
+  have hn := anyComment_forces_multiline e h
+  rw [fmtImplP_eq]
+  cases e <;> simp [orSingle, hn]
+
+/-- `format_expr` is the rendering of its pieces; the layouts are total functions of
+    (width, indent, tree) — structural recursion, no fuel, so there is no "enough fuel"
+    side condition anywhere above -/
+theorem render_pieces_is_format (e : Expr) (w : Option Nat) :
+    formatExpr e w = render (formatExprP e w) ∧
+    formatExpr e w = protectStatementStart (render (fmtImplP (w.getD DEFAULT_MAX_COLUMNS) 0 e)) ∧
+    fmtImpl (w.getD DEFAULT_MAX_COLUMNS) 0 e = render (fmtImplP (w.getD DEFAULT_MAX_COLUMNS) 0 e) :=
+  ⟨(render_protectP _).symm, rfl, rfl⟩
+
+/-- `fmtImplP` satisfies the equations of `format_expr_impl` / `format_multiline` /
+    `format_conditional_multiline` of `formatter.rs` (which re-enter the same node) -/
+theorem layouts_are_total_functions (w indent : Nat) :
+    (∀ args body, fmtImplP w indent (.lambda args body) = fmtLambdaP w indent args body) ∧
+    (∀ ss r, fmtImplP w indent (.doBlock ss r) = fmtMultiP w indent (.doBlock ss r)) ∧
+    (∀ e, (∀ args body, e ≠ .lambda args body) → (∀ ss r, e ≠ .doBlock ss r) →
+      fmtImplP w indent e =
+        if !hasNewline (fmtSingle e) && indent + blen (firstLine (fmtSingle e)) ≤ w
+        then [.text (fmtSingle e)] else fmtMultiP w indent e) ∧
+    (∀ c t e, fmtMultiP w indent (.cond c t e) = fmtCondP w indent c t e) ∧
+    (∀ c t c' t' e', fmtCondP w indent c t (.cond c' t' e') =
+      condLayout w indent (fmtImplP w indent c) (fun _ => fmtImplP w (indent + INDENT_SIZE) c)
+        (fmtImplP w (indent + INDENT_SIZE) t) (.text "else " :: fmtCondP w indent c' t' e')) := by
+  refine ⟨fun _ _ => by rw [fmtImplP_eq], fun _ _ => by rw [fmtImplP_eq], fun e hl hd => ?_,
+    fun _ _ _ => rfl, fun _ _ _ _ _ => ?_⟩
+  · rw [fmtImplP_eq]
+    cases e with
+    | lambda a b => exact absurd rfl (hl a b)
+    | doBlock s r => exact absurd rfl (hd s r)
+    | _ => rfl
+  · simp only [fmtCondP, fmtChainP, elseLayout]
+
+/-- `format_expr`: the comments in its result are the comments of the tree -/
+theorem format_expr_preserves_comments (e : Expr) (w : Option Nat)
+    (hc : ∀ c ∈ printedComments e, cleanComment c) :
+    commentPieces (formatExprP e w) = printedComments e ∧
+    formatExpr e w = render (formatExprP e w) :=
+  ⟨(Good.protect (good_impl e _ 0)).shown_eq hc, (render_protectP _).symm⟩
+
+/-- a comment that is clean is shown unchanged whatever the other comments are -/
+theorem clean_comment_is_shown_unchanged (w indent : Nat) (e : Expr) (o s : String)
+    (hm : Piece.comment o s ∈ fmtImplP w indent e) (hc : cleanComment o) : s = o :=
+  ((good_impl e w indent).2 _ hm).eq_of_clean hc
+
+/-- The one place where `formatter.rs` rewrites text it has already formatted: the right
+    operand of via / into / where goes through `lines()` and `join("\n")`.  On pieces this is
+    `relineP`; its rendering is exactly the Rust expression
+    `format!("{}\n{}", right.lines().next().unwrap_or(right), right.lines().skip(1)…join("\n"))`
+    (`firstLine`, `restLines` = `str::lines()` on characters), and the whole branch renders
+    to `format!("{} {} {}\n{}", left_str, op_str, first_line_of_right, remaining_lines)`. -/
+theorem reline_is_the_lines_round_trip :
+    (∀ ps, hasNewline (render ps) = true →
+      render (relineP ps) = firstLine (render ps) ++ "\n" ++ restLines (render ps)) ∧
+    (∀ w indent op l r lP rSame rIn,
+      (op == .via || op == .into || op == .where_) = true → isLambda r = true →
+      hasNewline (render (parenP (needsParens r (.binRight op)) (rSame ()))) = true →
+      indent + blen (render (parenP (needsParens l (.binLeft op)) lP) ++ " " ++ fmtSpelling op ++
+        " " ++ firstLine (render (parenP (needsParens r (.binRight op)) (rSame ())))) ≤ w →
+      render (binLayout w indent op l r lP rSame rIn) =
+        render (parenP (needsParens l (.binLeft op)) lP) ++ " " ++ fmtSpelling op ++ " " ++
+          firstLine (render (parenP (needsParens r (.binRight op)) (rSame ()))) ++ "\n" ++
+          restLines (render (parenP (needsParens r (.binRight op)) (rSame ())))) :=
+  ⟨fun ps h => render_relineP ps h, render_binLayout_chain⟩
+
+/-- what the round trip does to a text with a line feed: every carriage return directly in
+    front of a line feed goes, and the final line feed of a text that ends in one and has
+    another one before it -/
+theorem lines_round_trip_characterised (s : String) (h : hasNewline s = true) :
+    (relines s).toList =
+      (let q := stripCRs none s.toList
+       if q.getLast? = some '\n' ∧ 2 ≤ q.count '\n' then q.dropLast else q) :=
+  relines_toList s (by simpa [hasNewline, List.contains_iff_mem] using h)
+
+/-! ### where a comment is NOT kept (witnesses; the first one confirmed on the real code) -/
+
+/-- `y = l via x => [⏎ v, // c␍␍⏎]`: the comment is `// c␍` -/
+private abbrev crTree : Expr :=
+  .bin .via (.ident "l") (.lambda [.req "x"] (.list [.mk [] (.ident "v") (some "// c\r")]))
+
+/-- GENUINE DEFECT (formatter.rs `format_binary_op_multiline`, the `lines()` / `join("\n")`
+    round trip of the right operand of via / into / where): a carriage return at the end of a
+    comment (in general: in front of a line feed) is deleted — the comment is altered.  Hence
+    the `cleanComment` hypothesis of `format_preserves_comments` cannot be dropped. -/
+theorem carriage_return_is_stripped_from_comment :
+    printedComments crTree = ["// c\r"] ∧
+    commentPieces (fmtImplP 80 0 crTree) = ["// c"] ∧
+    formatExpr crTree (some 80) = "l via x =>\n  [\n    v,  // c\n  ]" ∧
+    ¬ cleanComment "// c\r" := by
+  refine ⟨by decide, by decide, by decide, ?_⟩
+  intro h
+  exact h.1 (by decide)
+
+/-- the same list outside via / into / where keeps its carriage return -/
+example : commentPieces (fmtImplP 80 0 (.list [.mk [] (.ident "v") (some "// c\r")])) = ["// c\r"] := by
+  decide
+
+/-- A trailing comment on the `return` item of a do-block is not printed
+    (`format_do_block_multiline` reads only `return_expr.leading`).  The parser never builds
+    such a tree. -/
+theorem return_trailing_comment_is_dropped :
+    let e : Expr := .doBlock [] (.mk ["// r"] (.ident "x") (some "// t"))
+    commentsOf e = ["// r", "// t"] ∧ printedComments e = ["// r"] ∧
+    commentPieces (fmtImplP 80 0 e) = ["// r"] ∧ retClean e = false := by
+  decide
+
+/-- `format_multiline` applied to a lambda (which `format_expr_impl` never does) falls to
+    `expr_to_source` and loses the comments of lists / records inside -/
+theorem format_multiline_on_lambda_loses_comments :
+    let e : Expr := .lambda [.req "x"] (.list [.mk ["// c"] (.ident "v") none])
+    printedComments e = ["// c"] ∧ commentPieces (fmtMultiP 80 0 e) = [] ∧
+    commentPieces (fmtImplP 80 0 e) = ["// c"] := by
+  decide
+
 /-! #### examples: the statement is true of the model on the shapes that matter, and the
     hypotheses are satisfiable -/
 
@@ -150,6 +402,54 @@ example : doComments [.mk ["// a"] (.assign "y" (.ident "z")) (some "// b")]
 
 /-- a comment-free tree on the single-line path -/
 example : hasNewline (fmtSingle (.call f [.ident "a", .list [.mk [] (.ident "v") none]])) = false := by
+  decide
+
+/-- the layouts on commented trees: every position the property lists, narrow and wide -/
+private abbrev big : Expr :=
+  .assign "r" (.record [
+    .mk ["// lead a"] (.static "a") (.list [.mk [] (.ident "v") (some "// one"),
+                                            .mk ["// two"] (.ident "w") none]) (some "// after a"),
+    .mk [] (.dyn (.list [.mk [] (.ident "k") (some "// in key")]))
+      (.lambda [.req "x"] db) none])
+
+example : commentsOf big =
+    ["// lead a", "// one", "// two", "// after a", "// in key", "// a", "// b", "// r"] := by decide
+example : retClean big = true := by decide
+example : ∀ c ∈ commentsOf big, cleanComment c := by
+  intro c hc
+  have : c ∈ ["// lead a", "// one", "// two", "// after a", "// in key", "// a", "// b", "// r"] := hc
+  simp only [List.mem_cons, List.mem_nil_iff, or_false] at this
+  rcases this with rfl | rfl | rfl | rfl | rfl | rfl | rfl | rfl <;>
+    exact ⟨by decide, by decide⟩
+example : commentPieces (fmtImplP 80 0 big) = commentsOf big := by decide
+example : commentPieces (fmtImplP 10 4 big) = commentsOf big := by decide
+set_option maxRecDepth 8192 in
+example : formatExpr big (some 80) =
+    "r = {\n  // lead a\n  a: [\n    v,  // one\n    // two\n    w,\n  ],  // after a\n" ++
+    "  [[\n    k,  // in key\n  ]]: x => do {\n    // a\n    y = z  // b\n    // r\n    return y\n  },\n}" := by
+  decide
+/-- else-if chain, call arguments, operands, via + lambda with a commented list -/
+private abbrev chain : Expr :=
+  .cond (.call f [cl]) (.bin .add (.ident "a") cl)
+    (.cond (.ident "p") (.un .negate cl) (.bin .via cl (.lambda [.req "x"] cl)))
+example : commentPieces (fmtImplP 80 0 chain) = ["// c", "// c", "// c", "// c", "// c"] ∧
+    commentsOf chain = ["// c", "// c", "// c", "// c", "// c"] := by decide
+example : commentPieces (fmtImplP 0 0 chain) = commentsOf chain := by decide
+/-- hypotheses of `single_line_output_has_no_comment_piece` -/
+example : hasNewline (fmtSingle (.call f [.ident "a"])) = false ∧
+    0 + blen (firstLine (fmtSingle (.call f [.ident "a"]))) ≤ 80 := by decide
+example : fmtImplP 80 0 (.call f [.ident "a"]) = [.text "f(a)"] := by decide
+/-- `Good` of a layout whose parts are given -/
+example : Good (fmtItemsP 80 2 [.mk ["// l"] (.ident "v") (some "// t")]) ["// l", "// t"] :=
+  (every_layout_preserves_comments 80 2).2.2.2.2.1 _
+
+/-- the `lines()` round trip -/
+example : relines "x => [\n  v,  // c\r\n]" = "x => [\n  v,  // c\n]" := by decide
+example : relines "a\n" = "a\n" ∧ relines "a\n\n" = "a\n" ∧ relines "a\nb\r" = "a\nb\r" ∧
+    relines "a\r\r\nb" = "a\r\nb" := by decide
+example : rustLines "a\r\nb\r\r\n\nc\r" = ["a", "b\r", "", "c\r"] ∧ rustLines "a\n" = ["a"] ∧
+    rustLines "" = [] := by decide
+example : hasNewline (render [.text "x => [", .comment "// c\r" "// c\r", .text "\n]"]) = true := by
   decide
 end examples
 
